@@ -61,6 +61,13 @@ fn node_scenario(w: &mut World, _ctx: &RunCtx, states: &mut Vec<u64>) -> Result<
         if i == 1 {
             c.peers.push(mesh::node_text(0, fam));
         }
+        // a periodic task of the housekeeping round that fails every time (a beacon file that does not exist) must
+        // not keep the replay windows from moving
+        if w.ch.chance("failing_housekeeping_task", 300) {
+            c.beacon_load = Some("/nonexistent/vpncloud-verif/beacon".to_string());
+            c.beacon_interval = 1;
+            w.count("c03_nodes_with_failing_housekeeping_task");
+        }
         w.add_node(c, fam);
     }
     let mut s = Ns { hk: vec![0; 2], next_hk: vec![None; 2], deliveries: BTreeMap::new() };
